@@ -162,6 +162,27 @@ fn marker_length_matrix() -> Vec<(String, Vec<u8>)> {
             }
         }
     }
+    // property names (and string values) of every small byte length built from 2-, 3- and 4-byte
+    // characters at every alignment, with the value missing, cut short or replaced by an object
+    // end: anything that cuts or indexes such text by a byte count lands inside a character
+    for unit in ["\u{e9}", "\u{4e2d}", "\u{1f600}"] {
+        for shift in 0..4usize {
+            for chars in [1usize, 2, 5, 8, 10, 11, 12, 16, 17, 21, 22, 32, 33, 40] {
+                let name = format!("{}{}", "a".repeat(shift), unit.repeat(chars));
+                for tail in [&[][..], &[0x09][..], &[0x00][..], &[0x02, 0x00][..], &[0x05, 0, 0, 9][..]] {
+                    let mut b = vec![0x03];
+                    b.extend_from_slice(&(name.len() as u16).to_be_bytes());
+                    b.extend_from_slice(name.as_bytes());
+                    b.extend_from_slice(tail);
+                    v.push((format!("object with a property name of {} bytes ({} x {}-byte characters after {} ASCII), then {:02x?}", name.len(), chars, unit.len(), shift, tail), b));
+                }
+                let mut b = vec![0x02];
+                b.extend_from_slice(&((name.len() + 3) as u16).to_be_bytes());
+                b.extend_from_slice(name.as_bytes());
+                v.push((format!("string value declaring 3 bytes more than its {} bytes of multi-byte text", name.len()), b));
+            }
+        }
+    }
     v
 }
 
@@ -222,8 +243,18 @@ fn build_count_input(i: usize, rng: &mut Rng) -> (String, Vec<u8>) {
             ("3.3 M empty arrays".into(), v)
         }
         _ => {
-            let n = rng.usize(1, 1 << 20);
-            ("random bytes".into(), rng.bytes(n))
+            // an ECMA array (and an object) whose keys are decimal numbers, one of them large: a
+            // decoder that turns such arrays into dense ones must not size them by the key
+            let key = *rng.pick(&["2000000", "4294967295", "16777215", "18446744073709551615", "99999999999"]);
+            let mut v = vec![if rng.coin() { 0x08 } else { 0x03 }];
+            if v[0] == 0x08 {
+                v.extend_from_slice(&[0, 0, 0, 2]);
+            }
+            v.extend_from_slice(&[0, 1, b'0', 0x05]);
+            v.extend_from_slice(&(key.len() as u16).to_be_bytes());
+            v.extend_from_slice(key.as_bytes());
+            v.extend_from_slice(&[0x05, 0, 0, 9]);
+            (format!("container with numeric keys \"0\" and \"{}\"", key), v)
         }
     }
 }
@@ -410,7 +441,32 @@ impl Check for C14 {
         }
         // random / mutated inputs: a valid-looking structure with mutations, or a nesting prefix
         // followed by random bytes, at random lengths up to the message limit
-        let (what, input): (String, Vec<u8>) = match rng.below(6) {
+        let (what, input): (String, Vec<u8>) = match rng.below(8) {
+            6 | 7 => {
+                // a valid encoding of generated values (multi-byte names, special names, numeric
+                // keys, objects written as ECMA arrays), cut at a random point or with a few
+                // bytes changed: the error paths see well-formed material up to the damage
+                use crate::refs::amf::{self, EncPolicy, GenCfg};
+                let cfg = GenCfg { max_depth: rng.usize(1, 4), max_children: rng.usize(2, 6), inexpressible: false, long_strings: false };
+                let vs = amf::gen_seq(rng, &cfg);
+                let pol = EncPolicy { ecma_per_256: *rng.pick(&[0u32, 128, 256]), any_true_byte: rng.coin() };
+                let (mut v, _) = amf::encode_variant(&vs, &pol, rng);
+                let what = if rng.coin() && !v.is_empty() {
+                    let c = rng.usize(0, v.len() - 1);
+                    v.truncate(c);
+                    "valid encoding truncated"
+                } else {
+                    for _ in 0..rng.usize(1, 3) {
+                        if v.is_empty() {
+                            break;
+                        }
+                        let at = rng.usize(0, v.len() - 1);
+                        v[at] = if rng.coin() { 0x09 } else { rng.u8() };
+                    }
+                    "valid encoding with bytes changed"
+                };
+                (what.into(), v)
+            }
             0 => {
                 let n = rng.usize(0, 4096);
                 ("random bytes".into(), rng.bytes(n))
@@ -470,7 +526,7 @@ impl Check for C14 {
         decode_on_small_stack(input, routes(rng.below(3)), &what, out);
     }
     fn rule(&self) -> String {
-        "each input is decoded on a spawned thread with a 2 MiB stack inside a supervised worker, by one of three routes (rml_amf0::deserialize; MessagePayload{type 20/18/17/15}::to_rtmp_message; a ServerSession receiving it as one type-20 message). Mandatory ladder: 12 nesting kinds (strict arrays, closed and unclosed objects, ECMA arrays, mixed, after a valid command prefix, wide-and-deep, long names, arrays with count 2^32-1, objects / ECMA arrays / a mix nested through properties with an empty name) x depths {1,10,100,10^3,10^4,10^5,10^6; thorough adds 2*10^6 and 3,355,443 = 16,777,215/5} x 3 routes; every marker byte 0x00-0x13, 0x20, 0x7F, 0x80, 0xFF followed by a declared length or count (u16 {0xFFFF, 0x8000, 0x0100}, u32 {2^32-1, 2^31-1, 2^24, 2^24-1, 2^24-2, 2^23, 2^20, 2^16}) with 0 or 16 bytes behind it, at top level, as a property value and as an array element (1,584 inputs x 3 routes); 14 count/length inputs (counts 2^31-1 and 2^32-1 with little or no data, declared 65535-byte strings and names with nothing behind, 16,777,215 one-byte values) x 3 routes; runs of 20,000 / 10^6 / 16,777,215 copies of one byte for each marker value, object-end 09, 0B, 0C and FF, x 3 routes; then random, mutated and marker-biased inputs. distinct = (kind, depth, route).".to_string()
+        "each input is decoded on a spawned thread with a 2 MiB stack inside a supervised worker, by one of three routes (rml_amf0::deserialize; MessagePayload{type 20/18/17/15}::to_rtmp_message; a ServerSession receiving it as one type-20 message). Mandatory ladder: 12 nesting kinds (strict arrays, closed and unclosed objects, ECMA arrays, mixed, after a valid command prefix, wide-and-deep, long names, arrays with count 2^32-1, objects / ECMA arrays / a mix nested through properties with an empty name) x depths {1,10,100,10^3,10^4,10^5,10^6; thorough adds 2*10^6 and 3,355,443 = 16,777,215/5} x 3 routes; every marker byte 0x00-0x13, 0x20, 0x7F, 0x80, 0xFF followed by a declared length or count (u16 {0xFFFF, 0x8000, 0x0100}, u32 {2^32-1, 2^31-1, 2^24, 2^24-1, 2^24-2, 2^23, 2^20, 2^16}) with 0 or 16 bytes behind it, at top level, as a property value and as an array element, plus property names and strings of 2-164 bytes built from 2-, 3- and 4-byte characters at every alignment with the value missing, cut short or replaced by an object end (2,592 inputs x 3 routes); 14 count/length inputs (counts 2^31-1 and 2^32-1 with little or no data, declared 65535-byte strings and names with nothing behind, 16,777,215 one-byte values) x 3 routes; runs of 20,000 / 10^6 / 16,777,215 copies of one byte for each marker value, object-end 09, 0B, 0C and FF, x 3 routes; then random, mutated and marker-biased inputs. distinct = (kind, depth, route).".to_string()
     }
     fn assumptions(&self) -> Vec<String> {
         vec![
